@@ -10,6 +10,9 @@ typedef int MPI_Op;
 
 #define MPI_COMM_WORLD 91
 #define MPI_COMM_SELF 92
+/* harness only: the communicator the integrators are run on when the environment models a sub-group of a larger
+   world (its ranks 0..P-1 are world ranks P..2P-1 of a world of 2P processes) */
+#define VF_COMM_GROUP 93
 #define MPI_IN_PLACE ((void*) 1)
 #define MPI_SUCCESS 0
 
